@@ -74,7 +74,7 @@ theorem order_receiveDecoded : Facts.order_Conversation_receiveDecoded = ["check
 theorem order_rotateOurKeys : Facts.order_keyManagementContext_rotateOurKeys = ["randSizedSecret", "revealMACKeysForOurPreviousKeyID", "forgetCountersForOurKey", "installNewDHKeyPair"] := by decide
 theorem order_rotateTheirKey : Facts.order_keyManagementContext_rotateTheirKey = ["revealMACKeysForTheirPreviousKeyID", "forgetCountersForTheirKey"] := by decide
 theorem order_deriveDHSessionKeys : Facts.order_keyManagementContext_deriveDHSessionKeys = ["pickOurKeys", "pickTheirKey", "newOtrConflictError", "calculateDHSessionKeys"] := by decide
-theorem order_End : Facts.order_Conversation_End = ["wipe", "createSerializedDataMessage", "wipe", "signalSecurityEventIf", "wipe", "wipe", "wipeBigInt"] := by decide
+theorem order_End : Facts.order_Conversation_End = ["wipe", "createSerializedDataMessage", "wipe", "forget", "signalSecurityEventIf", "wipe", "wipe", "wipeBigInt"] := by decide
 theorem order_processDisconnectedTLV : Facts.order_Conversation_processDisconnectedTLV = ["signalSecurityEventIf", "wipe", "wipe", "wipe"] := by decide
 theorem order_receiveUnit : Facts.order_Conversation_receiveUnit = ["makeCopy", "wipeBytes", "isOTREnabled", "receiveWithoutOTR", "guessMessageType", "withInjectionsPlain", "receiveErrorMessage", "receiveQueryMessage", "receiveTaggedPlaintext", "receivePlaintext", "receiveFragment", "fragmentsFinished", "forgetFragment", "withInjectionsPlain", "receiveUnit", "messageEvent", "receiveEncoded", "encodedMessage", "forgetFragment", "withInjectionsPlain", "toSendEncoded"] := by decide
 
@@ -125,5 +125,10 @@ theorem transitions_smpState : Facts.transitions_smpState = [("smpStateBase.rece
     conversions of literals, error values, big-number constants, reflection type tokens — no hash
     instance, no buffer with spare capacity, no cache that conversations would share (C20) -/
 theorem pkg_vars_initialised_by_call : Facts.pkgVarsInitialisedByCall = ["defaultResentPrefix=[]byte", "dsaKeyTypeValue=uint16", "errCannotSendUnencrypted=newOtrConflictError", "errCantAuthenticateWithoutEncryption=newOtrError", "errCorruptEncryptedSignature=newOtrError", "errInvalidOTRMessage=newOtrError", "errInvalidVersion=newOtrError", "errMessageNotInPrivate=newOtrError", "errNotWaitingForSMPSecret=newOtrError", "errReceivedMessageForOtherInstance=newOtrError", "errShortRandomRead=newOtrError", "errUnsupportedOTRVersion=newOtrError", "errWrongProtocolVersion=newOtrError", "errorMarker=[]byte", "int32SliceType=reflect.SliceOf", "int32Type=reflect.ValueOf().Type", "int8SliceType=reflect.SliceOf", "int8Type=reflect.ValueOf().Type", "intSliceType=reflect.SliceOf", "intType=reflect.ValueOf().Type", "msgMarker=[]byte", "otrv2FragmentationPrefix=[]byte", "otrv3FragmentationPrefix=[]byte", "queryMarker=[]byte", "tlvHandlers=make", "uint32Array60Type=reflect.ArrayOf", "uint32SliceType=reflect.SliceOf", "uint32Type=reflect.ValueOf().Type", "uint8SliceType=reflect.SliceOf", "uint8Type=reflect.ValueOf().Type", "whitespaceTagHeader=convertToWhitespace"] := by decide
+
+
+/-- the sub-packages (the s-expression reader) hold no package-level state besides one immutable
+    value: nothing concurrent imports of key files could share (C20) -/
+theorem sub_package_vars : Facts.subPackageVars = ["sexp.snil=literal"] := by decide
 
 end Otr.FactsOk
